@@ -9,6 +9,8 @@ import Driver.Sem
 import Driver.Types
 import Driver.Adds
 import Driver.Roundtrip
+import Driver.Parse
+import Driver.Comp
 open Driver
 
 def step (line : String) : List String :=
@@ -24,6 +26,8 @@ def step (line : String) : List String :=
   | "types" :: rest => runTypes rest
   | "adds" :: rest => runAdds rest
   | "roundtrip" :: rest => runRoundtrip rest
+  | "parse" :: rest => runParse rest
+  | "comp" :: rest => runComp rest
   | [] => []
   | f :: _ => [s!"{f} ? unknown-family"]
 
